@@ -108,7 +108,11 @@ func (g *Gen) quoRemWidePartial() (x, y d128.Decimal) {
 func genC03(g *Gen) {
 	g.setMode(0)
 	g.wordQuoRemGrid(0.15)
-	g.pairGrid(0.4, func(x, y d128.Decimal) {
+	g.relGrid(0.1, func(x, y d128.Decimal, kind string) {
+		g.bin("QuoRem", x, y, g.r.Intn(6))
+		g.bin("QuoRem", y, x, g.r.Intn(6))
+	})
+	g.pairGrid(0.35, func(x, y d128.Decimal) {
 		g.bin("QuoRem", x, y, g.r.Intn(6))
 	})
 	for !g.w.full() {
@@ -208,6 +212,27 @@ func (g *Gen) wordCollision() (x, y d128.Decimal, ok bool) {
 	c1 := new(big.Int).Add(new(big.Int).Lsh(big.NewInt(top), 64), big.NewInt(low))
 	gap := 1 + g.r.Intn(33)
 	var base *big.Int
+	if g.r.Intn(3) == 0 {
+		// both coefficients fit one word: c1 * 10^gap wrapped at 64 bits (gap 1..19), c1 drawn so that the product does wrap
+		gap = 1 + g.r.Intn(19)
+		if g.r.Intn(2) == 0 {
+			gap = 1 + g.r.Intn(7)
+		}
+		two64 := new(big.Int).Lsh(big.NewInt(1), 64)
+		lo := new(big.Int).Div(two64, pow10(gap))
+		c1 = new(big.Int).Add(lo, new(big.Int).Rand(g.r, new(big.Int).Sub(two64, lo)))
+		c1.Add(c1, big.NewInt(1))
+		if c1.Cmp(two64) >= 0 {
+			c1.Sub(two64, big.NewInt(1))
+		}
+		base = new(big.Int).Mod(new(big.Int).Mul(c1, pow10(gap)), two64)
+		if base.Sign() == 0 {
+			return x, y, false
+		}
+		e1 := g.r.Intn(200) - 100
+		neg := g.r.Intn(2) == 0
+		return mk(neg, c1, clampExp(e1+gap)), mk(neg, base, clampExp(e1)), true
+	}
 	switch g.r.Intn(3) {
 	case 0:
 		base = big.NewInt(low)
@@ -285,6 +310,16 @@ func genC04(g *Gen) {
 		g.bin2("Max", z, x)
 		g.bin2("Min", x, z)
 		g.bin2("Equal", x, g.variant(x))
+	})
+	g.relGrid(0.06, func(x, y d128.Decimal, kind string) {
+		g.bin2("Cmp", x, y)
+		g.bin2("Cmp", y, x)
+		g.bin2("CmpAbs", x, y)
+		g.bin2("CmpAbs", y, x)
+		g.bin2("Equal", x, y)
+		g.bin2("Compare", y, x)
+		g.bin2("Min", x, y)
+		g.bin2("Max", y, x)
 	})
 	g.wordCmpGrid(0.1, func(x, y d128.Decimal) {
 		g.bin2("Cmp", x, y)
@@ -527,6 +562,68 @@ func genC11(g *Gen) {
 			g.emit(e)
 		})
 	}
+	// Frexp for every digit count (smallest, largest and a drawn coefficient of that length) at seven places of the exponent
+	// range: fraction and exponent are two results of one call and must fit together for each length
+	g.gridRun(35*3*7, 0.1, func(i int) {
+		n := 1 + i%35
+		var c *big.Int
+		switch (i / 35) % 3 {
+		case 0:
+			c = pow10(n - 1)
+		case 1:
+			c = new(big.Int).Sub(pow10(n), big.NewInt(1))
+		default:
+			c = randDigits(g.r, n)
+		}
+		if c.Cmp(cMax) > 0 {
+			c = new(big.Int).Set(cMax)
+		}
+		e := []int{eMin, eMin + 1, -n, -n + 1, 0, eMax - 1, eMax}[i/105]
+		x := mk(g.r.Intn(2) == 0, c, e)
+		g.un("Frexp", x)
+		if i%5 == 0 {
+			g.un("Frexp", g.variant(x))
+		}
+	})
+	// Ldexp landing exactly k places beyond either end of the exponent range, k = 0..36, for coefficients of every length
+	// class: at the top the coefficient is padded with zeros while it fits, at the bottom digits are rounded away
+	g.gridRun(2*37*4, 0.12, func(i int) {
+		k := (i / 2) % 37
+		top := i%2 == 1
+		var c *big.Int
+		switch i / 74 {
+		case 0:
+			c = big.NewInt(int64(1 + g.r.Intn(9)))
+			if i%3 != 0 { // scaling by 10^k (k a step size of the clamping loop) wraps a word to a small value
+				c = g.wrapMultipleOf(128, []int{1, 2, 4, 8, 8, 19}[(i/2)%6])
+			}
+		case 1:
+			c = randDigits(g.r, min(34, max(1, 35-k+g.r.Intn(3)-1)))
+		case 2:
+			c = g.fullCoef()
+		default:
+			c = randDigits(g.r, 1+g.r.Intn(34))
+		}
+		if c.Sign() == 0 {
+			c = big.NewInt(1)
+		}
+		xe := g.r.Intn(81) - 40
+		if g.r.Intn(4) == 0 {
+			xe = randExp(g.r)
+		}
+		sh := eMin - k - xe
+		if top {
+			sh = eMax + k - xe
+		}
+		for m := 0; m < 6; m += 1 + g.r.Intn(2) {
+			g.setMode(m)
+			le := Ev{"op": "Ldexp"}
+			le.setDec("x", mk(g.r.Intn(2) == 0, c, xe))
+			setInt(le, "exp", sh)
+			g.emit(le)
+		}
+		g.setMode(0)
+	})
 	for !g.w.full() {
 		// New
 		var sig int64
@@ -632,7 +729,17 @@ func genC12(g *Gen) {
 		case 0:
 			in = b[:g.r.Intn(16)]
 		case 1:
-			in = append(append([]byte{}, b...), make([]byte, 1+g.r.Intn(48))...)
+			extra := 1 + g.r.Intn(48)
+			if g.r.Intn(3) == 0 { // lengths that equal 16 modulo a power of two (a length kept in a narrow integer type), and near them
+				extra = []int{16, 32, 48, 112, 240, 256, 256, 257, 512, 768, 4096, 4096 + 256}[g.r.Intn(12)]
+				if g.r.Intn(40) == 0 {
+					extra = 65536
+				}
+			}
+			in = append(append([]byte{}, b...), make([]byte, extra)...)
+			if g.r.Intn(2) == 0 {
+				g.r.Read(in[16:])
+			}
 		case 2:
 			in = []byte{}
 		default:
